@@ -86,7 +86,8 @@ impl Shared {
         g.st[t] = TState::Idle;
         self.cv.notify_all();
     }
-    /// worker: the future returned Pending; block until its waker fired. false = aborted
+    /// worker: the future returned Pending; block until its waker fired, then behave like a yield
+    /// point (WAKE) -- the state goes Pending -> AtYield(WAKE) under one lock. false = aborted
     pub fn park_pending(&self, t: usize) -> bool {
         let mut g = self.m.lock().unwrap();
         g.st[t] = TState::Pending;
@@ -98,8 +99,20 @@ impl Shared {
             return false;
         }
         g.woken[t] = false;
-        drop(g);
-        self.at_yield(t, WAKE);
+        if g.free_run {
+            g.st[t] = TState::Running;
+            return true;
+        }
+        g.st[t] = TState::AtYield(WAKE);
+        self.cv.notify_all();
+        while g.grant != Some(t) && !g.free_run {
+            g = self.cv.wait(g).unwrap();
+        }
+        if g.grant == Some(t) {
+            g.grant = None;
+        }
+        g.st[t] = TState::Running;
+        self.cv.notify_all();
         true
     }
     pub fn wake(&self, t: usize) {
@@ -147,9 +160,6 @@ impl Shared {
             g.grant = Some(t);
             self.cv.notify_all();
         }
-        self.wait_settled(t)
-    }
-    pub fn settle(&self, t: usize) -> Result<TState, String> {
         self.wait_settled(t)
     }
     pub fn finish(&self) {
